@@ -93,6 +93,10 @@ func propC05(c *Ctx) {
 
 	rrb := c.Rule("rollback-boundary", "rolling the module store back to a count removes exactly the entries whose index is >= that count", 1)
 	ruleRollbackBoundary(c, rrb)
+	rls := c.Rule("loop-stutter", "no loop of the scanner, parser, optimizer or compiler has an effect-free cycle on which every loop variable keeps its value (Compile terminates: a necessary condition only)", 1)
+	ruleLoopStutter(c, rls, l.RepoFuncs(func(p string) bool { return p == modPath || p == modPath+"/parser" || p == modPath+"/token" }), 60)
+	rtw := c.Rule("trace-writer-guard", "every write to a trace writer field of the compiler / optimizer lies behind a test that the field is not nil (the Trace* flags are independent of the writer)", 6)
+	ruleTraceWriterGuard(c, rtw)
 	rfx := c.Rule("fixpoint-reset", "the optimizer's pass loop resets, inside the loop, the change counter whose being zero ends it: the number of passes does not grow with the budget (Compile terminates whatever OptimizerLimit is)", 1)
 	ruleFixpointReset(c, rfx)
 
